@@ -65,13 +65,12 @@ def cfspec(is_async, sig, outs, tail, named=True):
 
 
 def cbad(c):
-    """objects whose __repr__ raises.  case['ideal_repr'] (never sent to the implementation) pretends every repr is harmless;
-    a class with its own __repr__ under trace_class: the traced __repr__ prints its own self - RecursionError"""
+    """objects whose __repr__ raises.  case['ideal_repr'] (never sent to the implementation) pretends every repr is harmless.
+    (Whether a class's own __repr__ ends up traced - then printing self recurses - is decided in Coq from the regenerated
+    skip list of the shortcut: eval_class gets the shortcut's name and the own_repr flag.)"""
     if c.get('ideal_repr'):
         return '[]'
     bad = [(int(k), v) for k, v in sorted((c.get('badrepr') or {}).items(), key=lambda kv: int(kv[0]))]
-    if c.get('kind') == 'class' and c.get('own_repr') == 'repr' and c['deco'] == 'trace_class':
-        bad += [(50, [0, 6, 0]), (51, [0, 6, 0])]
     return coq_list([f'({coq_nat(n)}, {cexn(e)})' for n, e in bad])
 
 
@@ -120,7 +119,8 @@ def coq_case(c):
         a = [50 if x == 'inst' else 51 if x == 'subinst' else x for x in c['a']]
         self_ = 51 if c['access'] == 'subinst' else 50
         k = coq_list([f'("{n}", {cval(x)})' for n, x in c["k"]])
-        return (f'eval_class {cbad(c)} {DN[c["deco"][:-6]]} {f} {MEMBER[c["member"]]} {ACCESS[c["access"]]} (VObj {self_}) (VCls 0) (VCls 1) '
+        own = coq_bool(c.get('own_repr') == 'repr' and not c.get('ideal_repr'))
+        return (f'eval_class {cbad(c)} "{c["deco"]}" {own} {DN[c["deco"][:-6]]} {f} {MEMBER[c["member"]]} {ACCESS[c["access"]]} (VObj {self_}) (VCls 0) (VCls 1) '
                 f'{coq_list([cval(x) for x in a])} {k}')
     o = c.get('other') or NO_OTHER
     nre = len(c.get('redeco', []))
@@ -411,11 +411,9 @@ def gen_stack_case(rng, names, style, is_async=None, tier='quick', redeco=None, 
     if nameless is None and sig is None and redeco is None and rng.random() < 0.06:
         nameless = rng.choice(['partial', 'partial', 'object'])
     if nameless:
-        # overrides looks the NAME up in the base class: above a wrapper of a nameless callable that name is the wrapper's
-        # own ("wrapper"), which is a different question; keep overrides directly on the callable only
-        # (likewise require_kwargs above another wrapper: DecoratedFunction calls inspect.getsource, which unwraps down
-        # to the partial and raises TypeError - same family, not modelled)
-        names = [d for i, d in enumerate(names) if d not in ('overrides', 'require_kwargs') or i == len(names) - 1] or ['trace']
+        # require_kwargs and overrides are about named function objects by their own definition (DecoratedFunction accepts
+        # functions and methods only; overrides looks the function's NAME up in the base class): outside the domain
+        names = [d for d in names if d not in ('overrides', 'require_kwargs')] or ['trace']
         redeco = [d for d in (redeco or []) if d not in ('overrides', 'require_kwargs')]
     method = rng.random() < 0.3 if (sig is None and not nameless) else False
     is_async = rng.random() < 0.45 if is_async is None else is_async
@@ -717,7 +715,6 @@ def stack_props(c, obs, twin, s, sigs, count_stats=True):
 PENDING = {}        # case key -> (idealisation flag, matcher id, ...): cases whose failure may be a registered defect
 K12_ID = 'require_kwargs_applied_by_call_over_a_wrapper_of_a_method'
 K13_ID = 'message_formats_a_value_whose_repr_fails'
-K14_ID = 'wrapper_names_a_callable_without_name'
 ATTRIBUTE_ERROR, RECURSION_ERROR = 105, 10701
 
 
@@ -748,8 +745,6 @@ def judge_stack(c, impl, out):
             prop.append(f'decoration raises {dec.get("deco_error_repr", "nothing")}, the statement demands '
                         f'{"PedanticOverrideException" if want else "no exception"} (overrides raises iff the base class lacks the name)')
         stat('decoration-time outcomes (overrides)')
-        if prop and not corr and c.get('nameless') and dec.get('deco_error') == ATTRIBUTE_ERROR:
-            PENDING[case_key(c)] = ('ideal_named', K14_ID, twin, {0: (c['sig'], 80), 1: ((c.get('other') or NO_OTHER)['sig'], 60)})
         return corr, prop
     if 'redeco_error' in dec:
         return [f'the second decoration raised: {dec["redeco_error"]}'], []
@@ -781,8 +776,6 @@ def judge_stack(c, impl, out):
     # the model reproduces the implementation, and the caller got exactly that failure
     if prop and not corr and c.get('badrepr') and any(repr_failure(r) for r in obs['results']):
         PENDING[case_key(c)] = ('ideal_repr', K13_ID, twin, sigs)
-    if prop and not corr and c.get('nameless') and any(r == [6, ATTRIBUTE_ERROR, 5000] for r in obs['results']):
-        PENDING[case_key(c)] = ('ideal_named', K14_ID, twin, sigs)
     return corr, prop
 
 
